@@ -79,6 +79,8 @@ def corners(tier):
     c["non-ascii"] = J(files={"módulo/ünï cöde.py": "# ünïcödé ✓\nπ = sum([x for x in range(3)])\n".encode()}, argv=["{dir}", "--codemod-include", "pixee:python/use-generator"])
     c["dry-run"] = J(files={"app.py": GEN, "requirements.txt": b"requests\n", "p.py": pick}, argv=["{dir}", "--codemod-include", "pixee:python/use-generator,pixee:python/harden-pickle-load", "--dry-run"])
     c["empty-between"] = J(files={"app.py": GEN, "p.py": pick}, argv=["{dir}", "--codemod-include", "pixee:python/use-generator,pixee:python/use-set-literal,pixee:python/secure-random,pixee:python/harden-pickle-load,pixee:python/no-such"])
+    # every registered pixee codemod at least once (default-excluded ones included): per-result metadata is complete
+    c["every-pixee-codemod"] = J(files={"app.py": GEN}, argv=["{dir}", "--codemod-include", "pixee:*"])
     c["duplicate-include"] = J(files={"app.py": GEN}, argv=["{dir}", "--codemod-include", "pixee:python/use-generator,pixee:python/use-gen*,pixee:python/use-generator"])
     c["sonar"] = J(files={"app.py": SONAR_SRC}, argv=["{dir}", "--codemod-include", "sonar:python/secure-random", "--sonar-hotspots-json", "{res:h.json}"], results={"h.json": sonar_hotspots()})
     c["sonar-failure-unfixed"] = J(files={"app.py": BAD}, argv=["{dir}", "--codemod-include", "sonar:python/secure-random", "--sonar-hotspots-json", "{res:h.json}"], results={"h.json": sonar_hotspots(line=1)})
@@ -135,7 +137,9 @@ def explore(tier, seed):
             if lite["exit"] != 0:
                 continue
             for k, d in codetf.validate(lite["report"], before=before, after=lite["tree"], logs=lite["logs"]):
-                cands.setdefault(f"seq|{k1}>{k2}|{name}|{k}", ({"sequence": True, "pair": [k1, k2], "step": name, "kind": k}, d))
+                # a defect of one codemod's result (e.g. an empty description) is the same defect in every history it occurs in
+                sig = f"result|{k}" if k.startswith(("empty-summary:", "empty-description:")) else f"seq|{k1}>{k2}|{name}|{k}"
+                cands.setdefault(sig, ({"sequence": True, "pair": [k1, k2], "step": name, "kind": k}, d))
     known_open = {k["signature"] for k in core.load_known() if k["property"] == PROP and k["status"] == "open"}
     violations, divergence = [], []
     new = [(sig, c) for sig, c in sorted(cands.items()) if sig not in known_open]
